@@ -8,6 +8,7 @@ from vf.spec import bits
 from vf.spec import opcodes as T
 
 ID = "C16"
+OPT_QUICK_ALL = True      # every partition also in a child interpreter started with -O
 LEVEL = "model_checking"
 TECHNIQUE = "explicit enumeration of all attach / re-attach histories (bounded length) over simulated targets of every peripheral device type and qualifier on both transports, judged by a device-type -> command-set reference table and a differential comparison with a fresh facade"
 RULE = ("depth 1: all 32 peripheral device types x 8 qualifiers x {SG_IO, iSCSI} x {SCSI(dev), facade(dev) re-attach}; all 32 types x every single bit of INQUIRY bytes 1-7 and 56 set (the selection may depend on the device type only); histories: all sequences of "
